@@ -17,11 +17,13 @@ LEVEL = ("hash-seed clause: every place where the ORDER of a set-typed value is 
          "classes are read by templates only on the rendered object itself, context-less imported templates keep no macro-written "
          "module state.")
 
-# unsorted iterations over sets whose order can only reach diagnostics text or idempotent removals (confirmed by reading)
+# unsorted iterations over sets whose order can only reach diagnostics text or idempotent removals (confirmed by reading).  A site is
+# identified by its role - the function and the set-typed attribute whose value the loop traverses (also through a local) - not by
+# the text of the loop header
 FROZEN = {
-    "parser.properties._process_model_errors::for <each model_errors[0]>.roots":
+    ("parser.properties._process_model_errors", "roots"):
         "order reaches only the text of the error detail (list of removed references) and idempotent removals",
-    "parser.properties._propogate_removal::for schemas.dependencies.get(root, set())":
+    ("parser.properties._propogate_removal", "dependencies"):
         "order reaches only the text of the error detail and idempotent removals (pop/del guarded by membership)",
 }
 ENV_SOURCES = ("time.time", "time.monotonic", "datetime.now", "datetime.utcnow", "datetime.today", "date.today", "random.",
@@ -32,6 +34,8 @@ ENV_SOURCES = ("time.time", "time.monotonic", "datetime.now", "datetime.utcnow",
 ORDERED = {"list", "sortedlist", "tuple"}
 # consumers whose result does not depend on the order in which their (single) iterable argument is traversed
 ORDER_BLIND = ("sorted", "set", "frozenset", "any", "all", "sum", "len", "min", "max", "Counter")
+SET_METHODS = ("update", "union", "intersection", "difference", "symmetric_difference", "intersection_update", "difference_update",
+               "symmetric_difference_update", "issubset", "issuperset", "isdisjoint")
 
 
 def _types_of(e: ast.AST | None, it: Any) -> frozenset[str]:
@@ -80,6 +84,10 @@ def _may_be_set(e: ast.AST | None, it: Any) -> bool:
         # either operand alone decides what is traversed: `s if c else []` traverses the set s whenever c holds
         return any(_may_be_set(v, it) for v in ([e.body, e.orelse] if isinstance(e, ast.IfExp) else e.values))
     t = _types_of(e, it)
+    if isinstance(e, ast.Call) and ((isinstance(e.func, ast.Attribute) and e.func.attr == "get" and len(e.args) == 2) or
+                                    (call_name(e) == "getattr" and len(e.args) == 3)):
+        # `d.get(k, ())`: the ordered type is the stand-in for a missing entry, what is traversed otherwise is the set
+        t = t - (_types_of(e.args[-1], it) & ORDERED) if "set" in t else t
     return "set" in t and not (t & ORDERED)
 
 
@@ -116,6 +124,7 @@ def run(rep: Report, ctx: Any) -> str:
                            "parsing has finished, so every late write has happened on them")
 
     n_py = 0
+    cfgs: dict[str, Any] = {}
     for f in ix.all_functions:
         if f.module.name.startswith(f"{PKG}.schema"):
             continue
@@ -126,16 +135,17 @@ def run(rep: Report, ctx: Any) -> str:
                     continue
                 n_py += 1
                 key = f"{short(f)}::{desc}"
-                if _feeds_order_blind(node, parent):
+                if _feeds_order_blind(node, parent, it):
                     rep.ok("R12.1", key, "set", "feeds a set / sorted() / order-blind aggregate: order not observed")
                     continue
-                if key in FROZEN:
-                    rep.ok("R12.1", key, "frozen", FROZEN[key], nontrivial=False)
+                frozen = _frozen_site(f, node, expr)
+                if frozen is not None:
+                    rep.ok("R12.1", key, "frozen", frozen, nontrivial=False)
                     continue
                 if isinstance(node, (ast.For, ast.AsyncFor)) and _insensitive_body(node.body):
                     rep.ok("R12.1", key, "set", "loop body performs only keyed / idempotent updates")
                     continue
-                if _singleton_guard(f.node, node, expr):
+                if _singleton_guard(f, node, expr, parent, cfgs):
                     rep.ok("R12.1", key, "set", "singleton by a dominating len(...) test")
                     continue
                 if isinstance(node, ast.JoinedStr) and _only_in_error(f.node, node):
@@ -149,24 +159,38 @@ def run(rep: Report, ctx: Any) -> str:
 
     # templates
     n_t = 0
+    unfolders: dict[str, Any] = {}
+
+    def plain(tname: str, text: str) -> str:
+        """key text of a template expression: template-local names for an access path read as the path"""
+        if tname not in unfolders:
+            unfolders[tname] = _name_unfolder(ctx.jinja.templates[tname]) if tname in ctx.jinja.templates else (lambda t: t)
+        return unfolders[tname](text)
+
     for k, itn in sorted(ji.iterations.items(), key=lambda kv: (kv[1].template, kv[1].macro, kv[1].expr, kv[1].kind)):
         if "set" not in itn.types or itn.kind in ("list",):
             continue
         n_t += 1
-        key = f"{itn.template}::{itn.macro}::{itn.kind} {itn.expr}"
+        key = f"{itn.template}::{itn.macro}::{itn.kind} {plain(itn.template, itn.expr)}"
         rep.check(False, "R12.1", key, f"`{itn.expr}` is a set and is iterated ({itn.kind}) without `| sort`: the emitted order depends "
                                        "on string hashing", where=f"{PKG}/templates/{itn.template}:{itn.line}",
                   lhs=sorted(itn.types), rhs="| sort")
     for k, itn in sorted(ji.iterations.items(), key=lambda kv: (kv[1].template, kv[1].macro, kv[1].expr)):
         if itn.sorted_ and itn.kind == "for":
             n_t += 1
-            rep.ok("R12.1", f"{itn.template}::{itn.macro}::for {itn.expr}", "sorted", "| sort / dictsort")
-    rep.floor("template_order_observations", n_t, 6)
-    # sorted aggregates: every template `for` over an import/alls collection is sorted
+            rep.ok("R12.1", f"{itn.template}::{itn.macro}::for {plain(itn.template, itn.expr)}", "sorted", "| sort / dictsort")
+    rep.floor("template_order_observations", n_t, 3)
+    # sorted aggregates: what models_init.py.jinja is handed was collected in document order; every `for` over it runs over a sorted
+    # sequence - sorted by the template (`| sort`) or already by the render call
+    n_a = 0
     for k, itn in sorted(ji.iterations.items()):
-        if itn.kind == "for" and itn.expr.split("|")[0] in ("imports", "alls") and itn.template == "models_init.py.jinja":
-            rep.check(itn.sorted_, "R12.2", f"{itn.template}::for {itn.expr}", "aggregate over all schemas is not sorted",
-                      where=f"{PKG}/templates/{itn.template}:{itn.line}", lhs=itn.expr, rhs="| sort")
+        arg = plain(itn.template, itn.expr).split("|")[0]
+        if itn.kind == "for" and arg in ("imports", "alls") and itn.template == "models_init.py.jinja":
+            n_a += 1
+            rep.check(itn.sorted_ or _sorted_by_render_call(ix, itn.template, arg), "R12.2", f"{itn.template}::for {plain(itn.template, itn.expr)}",
+                      "aggregate over all schemas is not sorted", where=f"{PKG}/templates/{itn.template}:{itn.line}", lhs=itn.expr,
+                      rhs="| sort, or sorted(...) at the render call")
+    rep.floor("aggregate_loops_of_models_init", n_a, 1)
 
     # environment sources
     n_env = 0
@@ -186,78 +210,292 @@ def run(rep: Report, ctx: Any) -> str:
     rep.indexed["environment_sources"] = n_env
 
     # ---- R12.2 ------------------------------------------------------------------------------------------------------
-    # errors reset per round in the three progress loops
-    n_w = 0
-    for f in ix.all_functions:
-        for n in ast.walk(f.node):
-            # round loops: `while <flag>:` whose body first clears the flag (other worklist shapes are not rounds)
-            if isinstance(n, ast.While) and isinstance(n.test, ast.Name) and any(
-                    isinstance(a, ast.Assign) and norm(a.targets[0]) == n.test.id and isinstance(a.value, ast.Constant) and a.value.value is False for a in n.body):
-                n_w += 1
-                # roles: the work list is iterated inside the round and re-assigned from the next-round list at its end; an error
-                # list must be reset per round iff some error is appended to it in a block that also re-queues the item
-                work = {norm(lp.iter) for lp in ast.walk(n) if isinstance(lp, ast.For) and isinstance(lp.iter, ast.Name)}
-                nxt = {norm(a.value) for a in n.body if isinstance(a, ast.Assign) and norm(a.targets[0]) in work and isinstance(a.value, ast.Name)}
-                errs = error_names(f.node)
-
-                def is_err(a: ast.AST) -> bool:
-                    return constructs_error(a) or (isinstance(a, ast.Name) and a.id in errs) or \
-                        (isinstance(a, ast.Tuple) and any(isinstance(x, ast.Name) and x.id in errs for x in a.elts))
-
-                err_lists = set()
-                for blk in [getattr(b, fld) for b in ast.walk(n) for fld in ("body", "orelse") if isinstance(getattr(b, fld, None), list)]:
-                    apps = [(norm(s_.value.func.value), s_.value) for s_ in blk if isinstance(s_, ast.Expr) and isinstance(s_.value, ast.Call)
-                            and isinstance(s_.value.func, ast.Attribute) and s_.value.func.attr == "append" and s_.value.args]
-                    if any(r in nxt for r, _ in apps):
-                        err_lists |= {r for r, c in apps if r not in nxt and isinstance(c.func.value, ast.Name) and is_err(c.args[0])}
-                rep.check(bool(nxt) and bool(err_lists), "R12.2", f"{short(f)}::round-structure", "the progress loop has no next-round list / no "
-                          "per-round error list", where(f, n), lhs=[sorted(nxt), sorted(err_lists)], rhs="work list re-assigned, errors recorded with the re-queue")
-                for i_, el in enumerate(sorted(err_lists)):
-                    reset = any(isinstance(s, ast.Assign) and norm(s.targets[0]) == el and isinstance(s.value, ast.List) and not s.value.elts
-                                for s in n.body)
-                    rep.check(reset, "R12.2", f"{short(f)}::round-errors#{i_}",
-                              f"`{el}` accumulates over rounds: whether an error is reported would depend on the order of definitions",
-                              where(f, n), lhs=el, rhs="reset to [] at the head of every round")
-    rep.floor("progress_loops", n_w, 3)
+    _round_loops(rep, ix)
     # separator-anchored suffix tests on references
     n_s = 0
     for f in ix.all_functions:
         refs = ({"ref_path"} & {p_.arg for p_ in f.params}) | set(Locals(f.node).bound_from(lambda v: v.startswith("parse_reference_path("), "assign"))
         for n in ast.walk(f.node):
-            if isinstance(n, ast.Call) and isinstance(n.func, ast.Attribute) and n.func.attr == "endswith" and \
-                    (norm(n.func.value).endswith(".ref") or norm(n.func.value) in refs) and n.args:
+            if isinstance(n, ast.Call) and isinstance(n.func, ast.Attribute) and n.func.attr == "endswith" and n.args and \
+                    _reference_text(n.func.value, f.node, refs):
                 n_s += 1
                 a = n.args[0]
-                anchored = False
-                if isinstance(a, ast.JoinedStr) and a.values and isinstance(a.values[0], ast.Constant) and str(a.values[0].value).startswith("/"):
-                    anchored = True
-                if isinstance(a, ast.Constant) and str(a.value).startswith("/"):
-                    anchored = True
-                if isinstance(a, ast.Name) and a.id in refs:
-                    anchored = True  # a full reference path always starts with '/'
-                rep.check(anchored, "R12.2", f"{short(f)}::endswith({role_anon(a, f.node)[:40]})",
+                rep.check(_slash_anchored(a, f.node, refs), "R12.2", f"{short(f)}::endswith({role_anon(a, f.node)[:40]})",
                           "suffix test on a reference without the `/` separator: a schema whose name is a suffix of another's is "
                           "confused with it (outcome then depends on the order of definitions)", where(f, n),
                           lhs=norm(n)[:80], rhs="argument starts with '/' or is a full reference path")
-    rep.floor("reference_suffix_tests", n_s, 3)
-    # monotone re-registration
+    rep.floor("reference_suffix_tests", n_s, 1)
+    # monotone re-registration: wherever the multipart flag of an existing object is set (copy with the field given, or a store)
     n_m = 0
     for f in ix.all_functions:
         for n in ast.walk(f.node):
-            if isinstance(n, ast.Call) and call_name(n).endswith("evolve"):
-                for kw in n.keywords:
-                    if kw.arg == "is_multipart_body":
-                        n_m += 1
-                        rep.check(isinstance(kw.value, ast.Constant) and kw.value.value is True, "R12.2",
-                                  f"{short(f)}::evolve(is_multipart_body)", "a flag of an already registered (shared) class is set "
-                                  "from the current item: the last operation parsed wins, so output depends on the order of paths",
-                                  where(f, n), lhs=norm(kw.value), rhs="constant True (monotone)")
+            obj = val = None
+            if isinstance(n, ast.Call) and call_name(n).rsplit(".", 1)[-1] in COPIERS and n.args:
+                obj, val = n.args[0], next((kw.value for kw in n.keywords if kw.arg == "is_multipart_body"), None)
+            elif isinstance(n, ast.Call) and call_name(n) in ("object.__setattr__", "setattr") and len(n.args) == 3 and \
+                    isinstance(n.args[1], ast.Constant) and n.args[1].value == "is_multipart_body":
+                obj, val = n.args[0], n.args[2]
+            elif isinstance(n, ast.Assign) and f.name not in CONSTRUCTORS:
+                for t in n.targets:
+                    if isinstance(t, ast.Attribute) and t.attr == "is_multipart_body":
+                        obj, val = t.value, n.value
+            if val is None:
+                continue
+            n_m += 1
+            old_flag = norm(obj) + ".is_multipart_body"
+            monotone = (isinstance(val, ast.Constant) and val.value is True) or \
+                (isinstance(val, ast.BoolOp) and isinstance(val.op, ast.Or) and
+                 any(norm(v) == old_flag or (isinstance(v, ast.Constant) and v.value is True) for v in val.values))
+            rep.check(monotone, "R12.2", f"{short(f)}::evolve(is_multipart_body)", "a flag of an already registered (shared) class is set "
+                      "from the current item: the last operation parsed wins, so output depends on the order of paths",
+                      where(f, n), lhs=norm(val), rhs="constant True, or `<old flag> or ...` (monotone)")
     rep.floor("shared_class_flag_updates", n_m, 1)
     _late_filled_fields(rep, ctx)
     _template_module_state(rep, ctx)
     rep.not_decided += ["invariance under permutation as such (class-name collisions and {name}_type_{i} numbering are order-sensitive "
                         "by construction; the property restricts itself to documents without diagnostics)"]
     return LEVEL
+
+
+# ---- R12.2 worklist rounds ----------------------------------------------------------------------------------------------------
+LIST_GROW = ("append", "extend", "insert")
+
+
+class _Same:
+    """union-find over (function, expression text): one list object under the names it has in a function and in the private helpers
+    it is handed to / returned from"""
+
+    def __init__(self) -> None:
+        self.p: dict[tuple[str, str], tuple[str, str]] = {}
+
+    def find(self, k: tuple[str, str]) -> tuple[str, str]:
+        self.p.setdefault(k, k)
+        while self.p[k] != k:
+            self.p[k] = self.p[self.p[k]]
+            k = self.p[k]
+        return k
+
+    def union(self, a: tuple[str, str], b: tuple[str, str]) -> None:
+        ra, rb = self.find(a), self.find(b)
+        if ra != rb:
+            self.p[max(ra, rb)] = min(ra, rb)
+
+    def members(self, k: tuple[str, str]) -> set[tuple[str, str]]:
+        r = self.find(k)
+        return {m for m in list(self.p) if self.find(m) == r}
+
+
+def _is_path(e: ast.AST | None) -> bool:
+    while isinstance(e, ast.Attribute):
+        e = e.value
+    return isinstance(e, ast.Name)
+
+
+def _paths_in(e: ast.AST) -> set[str]:
+    return {norm(n) for n in ast.walk(e) if _is_path(n) and isinstance(getattr(n, "ctx", None), ast.Load)}
+
+
+def _fresh_list(v: ast.AST | None) -> bool:
+    return (isinstance(v, ast.List) and not v.elts) or (isinstance(v, ast.Call) and call_name(v) == "list" and not v.args and not v.keywords)
+
+
+def _bindings(st: ast.stmt) -> list[tuple[str, ast.AST | None]]:
+    """(target text, value bound to it) of an assignment statement; a tuple target is paired with the elements of a tuple value, or
+    with the whole value (a call result that is unpacked)"""
+    out: list[tuple[str, ast.AST | None]] = []
+    if isinstance(st, ast.Assign):
+        pairs = [(t, st.value) for t in st.targets]
+    elif isinstance(st, ast.AnnAssign) and st.value is not None:
+        pairs = [(st.target, st.value)]
+    else:
+        return out
+    while pairs:
+        t, v = pairs.pop()
+        if isinstance(t, (ast.Tuple, ast.List)):
+            if isinstance(v, (ast.Tuple, ast.List)) and len(v.elts) == len(t.elts):
+                pairs += list(zip(t.elts, v.elts))
+            else:
+                pairs += [(e, v) for e in t.elts]
+        elif _is_path(t):
+            out.append((norm(t), v))
+    return out
+
+
+def _round_loops(rep: Report, ix: Any) -> None:
+    """worklist rounds, found by role: a loop in which a local is traversed item by item (by the loop itself or by a private helper it
+    is handed to) and re-bound, inside the loop, to what was collected for the next round.  Whatever records an error on a path that
+    also re-queues the item must start empty in every round: an item that fails in one round and succeeds in a later one must not
+    leave its error behind, or the diagnostics depend on the order of definitions.  Indifferent to how the loop is driven (flag,
+    `while True` + break, counter), to continue versus else, to parallel lists versus one list of records, and to a round or an item
+    step that lives in a helper."""
+    from ..astutil import cfg_of, enclosing_loop_body, region
+
+    cfgs: dict[str, Any] = {}
+    n_rounds = 0
+    for f in ix.all_functions:
+        for loop in [n for n in ast.walk(f.node) if isinstance(n, (ast.While, ast.For, ast.AsyncFor))]:
+            # -- the round's scope: the loop body and the private helpers called from it
+            called = {call_name(c).rsplit(".", 1)[-1] for st in loop.body for c in ast.walk(st) if isinstance(c, ast.Call)}
+            helpers: list[Any] = []
+            for h in region(ix, f)[1:]:
+                if h.name in called:
+                    for g in region(ix, h):
+                        if g.qual != f.qual and g not in helpers:
+                            helpers.append(g)
+            scope: list[tuple[Any, list[ast.stmt]]] = [(f, [s for st in loop.body for s in ast.walk(st) if isinstance(s, ast.stmt)])]
+            scope += [(h, [s for s in ast.walk(h.node) if isinstance(s, ast.stmt) and s is not h.node]) for h in helpers]
+            by_name = {h.name: h for h in helpers}
+            # -- one object, several names: arguments / parameters, returned values / unpacked results
+            same = _Same()
+            alias_calls: set[int] = set()
+            for g, stmts in scope:
+                for st in stmts:
+                    for c in [c for c in walk_own_calls(st)]:
+                        h = by_name.get(call_name(c).rsplit(".", 1)[-1])
+                        if h is None:
+                            continue
+                        pos = [a.arg for a in [*h.node.args.posonlyargs, *h.node.args.args]]
+                        if h.cls is not None and pos[:1] and pos[0] in ("self", "cls"):
+                            pos = pos[1:]
+                        for i, a in enumerate(c.args):
+                            if i < len(pos) and _is_path(a):
+                                same.union((g.qual, norm(a)), (h.qual, pos[i]))
+                        for k in c.keywords:
+                            if k.arg and _is_path(k.value):
+                                same.union((g.qual, norm(k.value)), (h.qual, k.arg))
+                        if isinstance(st, (ast.Assign, ast.AnnAssign)) and st.value is c:
+                            alias_calls.add(id(c))
+                            rets = [r.value for r in ast.walk(h.node) if isinstance(r, ast.Return) and r.value is not None]
+                            for t in (st.targets if isinstance(st, ast.Assign) else [st.target]):
+                                for rv in rets:
+                                    if isinstance(t, (ast.Tuple, ast.List)) and isinstance(rv, ast.Tuple) and len(rv.elts) == len(t.elts):
+                                        for e, r in zip(t.elts, rv.elts):
+                                            if _is_path(e) and _is_path(r):
+                                                same.union((g.qual, norm(e)), (h.qual, norm(r)))
+                                    elif _is_path(t) and _is_path(rv):
+                                        same.union((g.qual, norm(t)), (h.qual, norm(rv)))
+            # -- the work list: re-bound in the loop and traversed in the round
+            traversed: dict[str, set[str]] = {}
+            for g, stmts in scope:
+                its = [n.iter for st in stmts for n in ast.walk(st) if isinstance(n, (ast.For, ast.AsyncFor, ast.comprehension))]
+                traversed[g.qual] = set().union(*[names_in_load(i) for i in its]) if its else set()
+            rebound: dict[str, list[ast.AST | None]] = {}
+            for st in scope[0][1]:
+                for t, v in _bindings(st):
+                    if "." not in t:
+                        rebound.setdefault(t, []).append(v)
+            nxt: set[tuple[str, str]] = set()
+            work: list[str] = []
+            for w, vals in sorted(rebound.items()):
+                if not any(nm in traversed.get(q, ()) for q, nm in same.members((f.qual, w))):
+                    continue
+                work.append(w)
+                for v in vals:
+                    if isinstance(v, ast.Call) and id(v) in alias_calls:
+                        nxt.add(same.find((f.qual, w)))  # the helper hands the next work list back
+                    elif v is not None:
+                        nxt |= {same.find((f.qual, nm)) for nm in names_in_load(v) - {w}}
+            # -- what grows in the round
+            grows: list[tuple[Any, ast.stmt, str, ast.AST]] = []
+            for g, stmts in scope:
+                for st in stmts:
+                    if isinstance(st, ast.Expr) and isinstance(st.value, ast.Call) and isinstance(st.value.func, ast.Attribute) and \
+                            st.value.func.attr in LIST_GROW and st.value.args:
+                        grows.append((g, st, norm(st.value.func.value), st.value.args[-1]))
+                    elif isinstance(st, ast.AugAssign) and isinstance(st.op, ast.Add):
+                        grows.append((g, st, norm(st.target), st.value))
+            requeues = [m for m in grows if same.find((m[0].qual, m[2])) in nxt]
+            if not work or not requeues:
+                continue  # not a worklist round
+            n_rounds += 1
+            # -- error records of re-queued items
+            errs = {g.qual: error_names(g.node) for g, _ in scope}
+
+            def on_one_path(g: Any, a: ast.stmt, b: ast.stmt) -> bool:
+                """a and b are executed for the same item: one reaches the other without passing the head of the item loop"""
+                if a is b:
+                    return True
+                cfg = cfg_of(g, cfgs)
+                la, lb = enclosing_loop_body(g.node, a), enclosing_loop_body(g.node, b)
+                return b in cfg.reachable_from(a, avoid=lambda n: n is la and la is not None) or \
+                    a in cfg.reachable_from(b, avoid=lambda n: n is lb and lb is not None)
+
+            stale: dict[tuple[str, str], tuple[Any, ast.stmt, str, ast.AST]] = {}
+            for m in grows:
+                g, st, recv, payload = m
+                if not (constructs_error(payload) or names_in_load(payload) & errs[g.qual]):
+                    continue
+                if any(r[0] is g and on_one_path(g, st, r[1]) for r in requeues):
+                    stale.setdefault(same.find((g.qual, recv)), m)
+            changed = True
+            while changed:  # what a per-round error list is poured into carries the same obligation
+                changed = False
+                for m in grows:
+                    g, st, recv, payload = m
+                    c = same.find((g.qual, recv))
+                    if c not in stale and any(same.find((g.qual, p)) in stale for p in _paths_in(payload)):
+                        stale[c] = m
+                        changed = True
+            rep.check(bool(stale), "R12.2", f"{short(f)}::round-structure", "the worklist loop re-queues items but records no error "
+                      "together with the re-queue", where(f, loop), lhs=[sorted(work), sorted({m[2] for m in requeues})],
+                      rhs="work list re-bound per round, errors recorded with the re-queue")
+            funcs = {g.qual: g for g, _ in scope}
+            f_stmts = scope[0][1]
+            in_loop = {id(s) for s in f_stmts}
+            for c, m in sorted(stale.items(), key=lambda kv: (kv[1][0].qual != f.qual, kv[1][0].qual, kv[1][1].lineno)):
+                why = ""
+                for q, nm in sorted(same.members(c)):
+                    g = funcs.get(q)
+                    if g is None:
+                        continue
+                    if g is f:
+                        # statements of the loop that put something into the list: directly, or by handing it to a helper that does
+                        via_helper = any(x[0] is not f and same.find((x[0].qual, x[2])) == c for x in grows)
+                        puts = [x[1] for x in grows if x[0] is f and x[2] == nm]
+                        if via_helper:
+                            puts += [st for st in f_stmts for cl in walk_own_calls(st) if call_name(cl).rsplit(".", 1)[-1] in by_name and
+                                     nm in [norm(a) for a in [*cl.args, *[k.value for k in cl.keywords]]]]
+                        # a helper's result is a new list unless the helper fills a list it was handed (and may hand that one back)
+                        handed = any(x[0] is not f and same.find((x[0].qual, x[2])) == c and x[2] in {a.arg for a in x[0].params} for x in grows)
+                        resets = {id(st) for st in ast.walk(f.node) if isinstance(st, ast.stmt) for t, v in _bindings(st)
+                                  if t == nm and (_fresh_list(v) or (isinstance(v, ast.Call) and id(v) in alias_calls and not handed))}
+                        cfg = cfg_of(f, cfgs)
+
+                        def avoid(n: object) -> bool:
+                            return id(n) in resets
+
+                        carried = any(loop in cfg.reachable_from(a, avoid=avoid) for a in puts)
+                        around = cfg.reachable_from(loop, avoid=avoid)
+                        cycle = any(p in around and id(p) in in_loop for p in cfg.pred.get(loop, ()))
+                        if carried and cycle:
+                            why = f"`{nm}` is filled in one round and not emptied before the next"
+                    elif nm in {a.arg for a in [*g.params, *([g.node.args.vararg] if g.node.args.vararg else []),
+                                                  *([g.node.args.kwarg] if g.node.args.kwarg else [])]}:
+                        continue  # the caller's list: judged under the caller's name
+                    elif "." in nm:
+                        if any(x[0] is g and x[2] == nm for x in grows):
+                            why = f"`{nm}` ({short(g)}) belongs to an object that outlives the round"
+                    else:
+                        vals = [v for k, _, v in Locals(g.node).defs.get(nm, []) if not k.startswith("aug")]
+                        if not vals or not all(_fresh_list(v) or (isinstance(v, ast.Call) and id(v) in alias_calls) for v in vals):
+                            why = f"`{nm}` ({short(g)}) does not start as an empty list in every call"
+                    if why:
+                        break
+                g, st, recv, payload = m
+                rep.check(not why, "R12.2", f"{short(f)}::round-errors[{role_anon(payload, g.node)[:60]}]",
+                          f"{why}: it accumulates the errors of items that are re-queued, so whether an error is reported depends on the "
+                          "order of definitions", where(g, st), lhs=recv, rhs="starts empty in every round")
+    rep.floor("progress_loops", n_rounds, 1)
+
+
+def walk_own_calls(st: ast.stmt) -> list[ast.Call]:
+    from ..cfg import walk_own
+
+    return [n for n in walk_own(st) if isinstance(n, ast.Call)]
+
+
+def names_in_load(e: ast.AST) -> set[str]:
+    return {n.id for n in ast.walk(e) if isinstance(n, ast.Name) and isinstance(n.ctx, ast.Load)}
 
 
 def _order_observations(n: ast.AST, fn: ast.AST, parent: dict[int, ast.AST]) -> list[tuple[ast.expr, str, ast.AST]]:
@@ -336,7 +574,7 @@ def _control_untyped_set_forms() -> bool:
     return seen == 4 and blind == 1
 
 
-def _feeds_order_blind(node: ast.AST, parent: dict[int, ast.AST]) -> bool:
+def _feeds_order_blind(node: ast.AST, parent: dict[int, ast.AST], it: Any = None) -> bool:
     """the observing expression is itself the argument of a consumer that forgets the order again: sorted(list(s)), set(x for x in s),
     any(... for x in s), len([.. for x in s]), `{*[.. for x in s]}`"""
     if not isinstance(node, ast.expr):
@@ -346,29 +584,201 @@ def _feeds_order_blind(node: ast.AST, parent: dict[int, ast.AST]) -> bool:
         par = parent.get(id(par))
         return isinstance(par, ast.Set)
     if isinstance(par, ast.Call) and par.args and par.args[0] is node and len(par.args) == 1:
-        return call_name(par).rsplit(".", 1)[-1] in ORDER_BLIND
+        if call_name(par).rsplit(".", 1)[-1] in ORDER_BLIND:
+            return True
+        # a method of a set that takes any iterable and forgets its order: s.update(x for x in t), s.issubset([..]) ...
+        return it is not None and isinstance(par.func, ast.Attribute) and par.func.attr in SET_METHODS and _may_be_set(par.func.value, it)
     return False
 
 
-def _singleton_guard(fn: ast.AST, node: ast.AST, expr: ast.expr) -> bool:
-    """node is inside `if len(X) == 1:` (or after an early return on len(X) > 1 / != 1) for the same X"""
+def _sorted_by_render_call(ix: Any, template: str, arg: str) -> bool:
+    """every `.render(.., arg=V, ..)` of the template passes a V that is sorted: `sorted(..)`, or a local that only ever holds such a
+    value, or a local list that is `.sort()`ed in the function outside any loop"""
+    from ..astutil import resolved_text
+
+    sites = []
+    for f in ix.all_functions:
+        for c in ast.walk(f.node):
+            if isinstance(c, ast.Call) and isinstance(c.func, ast.Attribute) and c.func.attr == "render" and \
+                    repr(template)[1:-1] in resolved_text(c.func.value, f.node):
+                for kw in c.keywords:
+                    if kw.arg == arg:
+                        sites.append((f, kw.value))
+    if not sites:
+        return False
+
+    def is_sorted(v: ast.AST, fn: ast.AST) -> bool:
+        if isinstance(v, ast.Call) and call_name(v) == "sorted":
+            return True
+        if isinstance(v, ast.Name):
+            vals = Locals(fn).values_of(v.id)
+            if vals and all(isinstance(x, ast.Call) and call_name(x) == "sorted" for x in vals):
+                return True
+            in_loops = {id(s) for lp in ast.walk(fn) if isinstance(lp, (ast.For, ast.While, ast.AsyncFor)) for s in ast.walk(lp)}
+            return any(isinstance(c, ast.Call) and isinstance(c.func, ast.Attribute) and c.func.attr == "sort" and norm(c.func.value) == v.id
+                       and id(c) not in in_loops for c in ast.walk(fn))
+        return False
+
+    return all(is_sorted(v, f.node) for f, v in sites)
+
+
+def _reference_text(e: ast.AST, fn: ast.AST, refs: set[str], depth: int = 3) -> bool:
+    """e may hold a reference string: the `.ref` of a Reference object or a parsed reference path, directly, as an arm of a conditional /
+    `or` expression, or through a local bound to one of these"""
+    if isinstance(e, ast.Attribute):
+        return e.attr == "ref"
+    if isinstance(e, ast.IfExp):
+        return _reference_text(e.body, fn, refs, depth) or _reference_text(e.orelse, fn, refs, depth)
+    if isinstance(e, ast.BoolOp):
+        return any(_reference_text(v, fn, refs, depth) for v in e.values)
+    if isinstance(e, ast.NamedExpr):
+        return _reference_text(e.value, fn, refs, depth)
+    if isinstance(e, ast.Name):
+        return e.id in refs or (depth > 0 and any(_reference_text(v, fn, refs, depth - 1) for v in Locals(fn).values_of(e.id)))
+    return False
+
+
+def _slash_anchored(a: ast.AST, fn: ast.AST, refs: set[str], depth: int = 3) -> bool:
+    """the suffix begins with the path separator (so it can only match whole path segments) or is itself a full reference path,
+    however the string is put together: literal, f-string, `+`, `%`, `.format`, a local holding one of these, a tuple of them"""
+    def lit(e: ast.AST) -> bool:
+        return isinstance(e, ast.Constant) and isinstance(e.value, str) and e.value.startswith("/")
+
+    if lit(a):
+        return True
+    if isinstance(a, ast.JoinedStr):
+        return bool(a.values) and lit(a.values[0])
+    if isinstance(a, ast.BinOp) and isinstance(a.op, (ast.Add, ast.Mod)):
+        return _slash_anchored(a.left, fn, refs, depth)
+    if isinstance(a, ast.Call) and isinstance(a.func, ast.Attribute) and a.func.attr == "format":
+        return lit(a.func.value)
+    if isinstance(a, ast.Tuple):
+        return bool(a.elts) and all(_slash_anchored(e, fn, refs, depth) for e in a.elts)
+    if isinstance(a, ast.Name):
+        if a.id in refs:
+            return True  # a full reference path always starts with '/'
+        vals = Locals(fn).values_of(a.id)
+        return depth > 0 and bool(vals) and all(_slash_anchored(v, fn, refs, depth - 1) for v in vals)
+    return False
+
+
+def _frozen_site(f: Any, node: ast.AST, expr: ast.expr) -> str | None:
+    from ..astutil import resolved_text
+    import re
+
+    if not isinstance(node, (ast.For, ast.AsyncFor)):
+        return None
+    txt = resolved_text(expr, f.node)
+    for (fn, attr), why in FROZEN.items():
+        if short(f) == fn and re.search(r"\." + attr + r"\b", txt):
+            return why
+    return None
+
+
+def _len_test(t: ast.expr, x: str, k: int) -> bool | None:
+    """value of the test t when the collection written x has k elements (None: does not depend on that alone)"""
+    def is_len(e: ast.AST) -> bool:
+        return isinstance(e, ast.Call) and call_name(e) == "len" and len(e.args) == 1 and norm(e.args[0]) == x
+
+    if isinstance(t, ast.UnaryOp) and isinstance(t.op, ast.Not):
+        v = _len_test(t.operand, x, k)
+        return None if v is None else not v
+    if isinstance(t, ast.BoolOp):
+        vs = [_len_test(v, x, k) for v in t.values]
+        if isinstance(t.op, ast.And):
+            return False if any(v is False for v in vs) else (True if all(v is True for v in vs) else None)
+        return True if any(v is True for v in vs) else (False if all(v is False for v in vs) else None)
+    if isinstance(t, ast.NamedExpr):
+        return _len_test(t.value, x, k)
+    if isinstance(t, ast.Compare) and len(t.ops) == 1:
+        a, b = t.left, t.comparators[0]
+        va = k if is_len(a) else a.value if isinstance(a, ast.Constant) and type(a.value) is int else None
+        vb = k if is_len(b) else b.value if isinstance(b, ast.Constant) and type(b.value) is int else None
+        if va is None or vb is None or not (is_len(a) or is_len(b)):
+            return None
+        op = t.ops[0]
+        table = {ast.Eq: va == vb, ast.NotEq: va != vb, ast.Lt: va < vb, ast.LtE: va <= vb, ast.Gt: va > vb, ast.GtE: va >= vb}
+        return table.get(type(op))
+    if is_len(t) or norm(t) == x:
+        return k > 0
+    return None
+
+
+def _singleton_guard(f: Any, node: ast.AST, expr: ast.expr, parent: dict[int, ast.AST], cfgs: dict[str, Any]) -> bool:
+    """the observation cannot be reached while the traversed collection has more than one element: every path to it is cut by a
+    decision on len(X) (if / while / assert / conditional expression / and / or, in any form and branch order)"""
+    from ..astutil import cfg_of, stmt_of
+    from ..cfg import ENTRY
+
     x = norm(expr)
-    for n in ast.walk(fn):
-        if isinstance(n, ast.If) and f"len({x})" in norm(n.test):
-            t = norm(n.test)
-            if "== 1" in t and any(s is node for b in n.body for s in ast.walk(b)):
-                return True
-            if ("> 1" in t or "!= 1" in t) and any(isinstance(s, ast.Return) for s in n.body) and \
-                    getattr(node, "lineno", 0) > n.lineno:
-                return True
-    return False
+    st = node if isinstance(node, ast.stmt) else stmt_of(f.node, node)
+    if st is None:
+        return False
+    if not any(isinstance(n, ast.Call) and call_name(n) == "len" and n.args and norm(n.args[0]) == x for n in ast.walk(f.node)):
+        return False
+    # the collection must be the same one at the test and at the observation: a local bound once (or a parameter never re-bound)
+    root = x.split(".")[0].split("[")[0]
+    if len(Locals(f.node).defs.get(root, [])) > (0 if root in {a.arg for a in f.params} else 1):
+        return False
+    cfg = cfg_of(f, cfgs)
+    for k in (2, 3, 4, 5, 8, 1000):
+        # inside the statement: conditional expressions and short-circuit operators on the way to the observation
+        cut = False
+        ch: ast.AST = node
+        while ch is not st and id(ch) in parent:
+            par = parent[id(ch)]
+            if isinstance(par, ast.IfExp) and ch is not par.test:
+                v = _len_test(par.test, x, k)
+                cut = cut or (v is False and ch is par.body) or (v is True and ch is par.orelse)
+            if isinstance(par, ast.BoolOp):
+                for prev in par.values[:par.values.index(ch)] if ch in par.values else []:
+                    v = _len_test(prev, x, k)
+                    cut = cut or (v is False and isinstance(par.op, ast.And)) or (v is True and isinstance(par.op, ast.Or))
+            ch = par
+        if cut:
+            continue
+        seen: set[int] = {id(ENTRY)}
+        stack: list[object] = [ENTRY]
+        reached = False
+        while stack and not reached:
+            n = stack.pop()
+            succs = list(cfg.succ.get(n, ()))
+            if isinstance(n, (ast.If, ast.While)):
+                v = _len_test(n.test, x, k)
+                if v is True:
+                    succs = [s_ for s_ in succs if s_ is n.body[0]]
+                elif v is False:
+                    succs = [s_ for s_ in succs if s_ is not n.body[0]]
+            elif isinstance(n, ast.Assert) and _len_test(n.test, x, k) is False:
+                succs = []
+            for s_ in succs:
+                if s_ is st:
+                    reached = True
+                    break
+                if id(s_) not in seen:
+                    seen.add(id(s_))
+                    stack.append(s_)
+        if reached:
+            return False
+    return True
 
 
 def _only_in_error(fn: ast.AST, node: ast.AST) -> bool:
-    for n in ast.walk(fn):
-        if isinstance(n, ast.Call) and call_name(n).rsplit(".", 1)[-1] in ("PropertyError", "ParseError", "ParameterError", "GeneratorError"):
-            if any(s is node for s in ast.walk(n)):
-                return True
+    """the formatted text goes into an error value and nowhere else: it is written inside the call that builds the error, or kept in a
+    local whose every use is"""
+    from ..astutil import ERROR_CLASSES, ERROR_ONLY_HELPERS
+
+    def error_calls() -> list[ast.Call]:
+        return [n for n in ast.walk(fn) if isinstance(n, ast.Call) and call_name(n).rsplit(".", 1)[-1] in (ERROR_CLASSES | ERROR_ONLY_HELPERS)]
+
+    if any(s is node for c in error_calls() for s in ast.walk(c)):
+        return True
+    for st in ast.walk(fn):
+        if isinstance(st, ast.Assign) and len(st.targets) == 1 and isinstance(st.targets[0], ast.Name) and any(s is node for s in ast.walk(st.value)):
+            nm = st.targets[0].id
+            uses = [n for n in ast.walk(fn) if isinstance(n, ast.Name) and n.id == nm and isinstance(n.ctx, ast.Load)]
+            inside = {id(s) for c in error_calls() for s in ast.walk(c)}
+            return bool(uses) and all(id(u) in inside for u in uses)
     return False
 
 
@@ -434,18 +844,18 @@ def _late_filled_fields(rep: Report, ctx: Any) -> None:
             for (q, fld), w in lazy.items():
                 if q in src and fld not in given:
                     stale.setdefault((q, fld), (w, where(f, n)))
-    rep.floor("copy_sites_of_repository_objects", n_copies, 3)
+    rep.floor("copy_sites_of_repository_objects", n_copies, 10)
     rep.indexed["late_filled_fields_of_copied_classes"] = sorted(f"{q.rsplit('.', 1)[-1]}.{fld}" for q, fld in stale)
     if not stale:
         rep.ok("R12.3", "no-late-filled-field-of-a-copied-class", "none", "nothing to protect")
         return
     names = {fld for _, fld in stale}
-    n_reads = 0
     seen: set[str] = set()
     imported = _imported_templates(ctx.jinja.templates, nodes)
     for tname, ti in sorted(ctx.jinja.templates.items()):
         render_args = set(ji.render_kwargs.get(tname, {}))
-        subjects = _subject_names(ti, render_args, tname in imported, nodes)
+        alias = _template_aliases(ti, nodes)
+        subjects = _subject_names(ti, render_args, tname in imported, nodes, alias)
         for mname, (body, subj) in subjects.items():
             for g in _own_template_nodes(body, nodes):
                 if not (isinstance(g, nodes.Getattr) and g.attr in names):
@@ -456,13 +866,13 @@ def _late_filled_fields(rep: Report, ctx: Any) -> None:
                 owners = {(q, fld) for (q, fld) in stale if fld == g.attr and q in rd[3]}
                 if not owners:
                     continue
-                n_reads += 1
-                key = f"{tname}::{mname}::{expr_text(g)}"
+                # one construct, one key: a read through a template-local name for an access path is the read of that path
+                key = f"{tname}::{mname}::{_unfolded_text(g, alias, nodes)}"
                 if key in seen:
                     continue
                 seen.add(key)
                 base = g.node
-                subject = _is_subject(base, subj, nodes)
+                subject = _is_subject(base, subj, nodes, alias)
                 q, fld = sorted(owners)[0]
                 rep.check(subject, "R12.3", key,
                           f"`{expr_text(g)}` reads {q.rsplit('.', 1)[-1]}.{fld} on an object that is not the one handed to render(): the field is "
@@ -470,7 +880,7 @@ def _late_filled_fields(rep: Report, ctx: Any) -> None:
                           "copy taken before the original was completed keeps the placeholder and the emitted text depends on the order "
                           "of definitions in the document", where=f"{PKG}/templates/{tname}:{getattr(g, 'lineno', 0)}",
                           lhs=expr_text(base), rhs=f"a render argument of {tname}: {sorted(render_args)}")
-    rep.floor("template_reads_of_late_filled_fields", n_reads, 5)
+    rep.floor("template_reads_of_late_filled_fields", len(seen), 5)
 
 
 def _fresh_object(target: ast.AST, f: Any, ix: Any) -> bool:
@@ -482,13 +892,109 @@ def _fresh_object(target: ast.AST, f: Any, ix: Any) -> bool:
     return bool(vals) and all(isinstance(v, ast.Call) and (call_name(v) == "cls" or call_name(v).rsplit(".", 1)[-1] in class_names) for v in vals)
 
 
-def _is_subject(e: Any, subj: set[str], nodes: Any) -> bool:
-    """e denotes an object handed to render() itself: a render argument, a `set` alias of one (canonical name `(arg)`), or a macro
+def _access_path(e: Any, nodes: Any) -> bool:
+    """a name, or attribute / constant-subscript / argument-less call steps from one: an expression that can be repeated wherever a name
+    for it is used (no operator, no filter)"""
+    while True:
+        if isinstance(e, nodes.Name):
+            return True
+        if isinstance(e, nodes.Getattr) or (isinstance(e, nodes.Getitem) and isinstance(e.arg, nodes.Const)) or \
+                (isinstance(e, nodes.Call) and not e.args and not e.kwargs and e.dyn_args is None and e.dyn_kwargs is None):
+            e = e.node
+            continue
+        return False
+
+
+def _template_aliases(ti: Any, nodes: Any) -> dict[int, Any]:
+    """id(Name node) -> the expression the name stands for at that place: a `set` variable with one definition that is an access path
+    (all uses carry the canonical name `(definition)`, see jinja_canon) or a `with` variable.  Template-local names for a
+    path are spelling: rules and keys look through them."""
+    from ..jinja_interp import expr_text
+
+    out: dict[int, Any] = {}
+    defs: dict[str, list[Any]] = {}
+    for n in ti.tree.find_all(nodes.Assign):
+        if isinstance(n.target, nodes.Name) and n.target.name[:1] == "(":
+            defs.setdefault(n.target.name, []).append(n.node)
+    single = {nm: ds[0] for nm, ds in defs.items() if len({expr_text(d) for d in ds}) == 1 and _access_path(ds[0], nodes)}
+    for x in ti.tree.find_all(nodes.Name):
+        if x.ctx == "load" and x.name in single:
+            out[id(x)] = single[x.name]
+    for w in ti.tree.find_all(nodes.With):  # document order: an inner `with` of the same name overrides the outer one
+        for t, v in zip(w.targets, w.values):
+            if isinstance(t, nodes.Name):  # (a value that is not a path is recorded too: the name then denotes no render argument)
+                for b in w.body:
+                    for x in [b, *b.find_all(nodes.Name)]:
+                        if isinstance(x, nodes.Name) and x.ctx == "load" and x.name == t.name:
+                            out[id(x)] = v
+    return out
+
+
+def _name_unfolder(ti: Any) -> Any:
+    """text -> text: the canonical names `(path)` of single-definition `set` variables replaced by the path (for expression texts that
+    come without their node); a `(` that follows a name, `)` or `]` opens an argument list and is left alone"""
+    import re
+
+    from jinja2 import nodes
+
+    alias = _template_aliases(ti, nodes)
+    table: dict[str, str] = {}
+    for x in ti.tree.find_all(nodes.Name):
+        if id(x) in alias and x.name[:1] == "(" and x.name not in table:
+            table[x.name] = _unfolded_text(x, alias, nodes)
+    pats = [(re.compile(r"(?<![\w\)\]])" + re.escape(nm) + r"(?!')"), txt) for nm, txt in sorted(table.items(), key=lambda kv: -len(kv[0]))]
+
+    def run(text: str) -> str:
+        for _ in range(4):
+            before = text
+            for pat, txt in pats:
+                text = pat.sub(lambda m, t=txt: t, text)
+            if text == before:
+                break
+        return text
+
+    return run
+
+
+def _resolve_alias(e: Any, alias: dict[int, Any]) -> Any:
+    for _ in range(8):
+        if id(e) not in alias:
+            break
+        e = alias[id(e)]
+    return e
+
+
+def _unfolded_text(e: Any, alias: dict[int, Any], nodes: Any) -> str:
+    """expr_text with every template-local name for an access path replaced by the path"""
+    import copy
+
+    from ..jinja_interp import expr_text
+
+    def unfold(n: Any, depth: int = 0) -> Any:
+        if isinstance(n, nodes.Name):
+            r = alias.get(id(n))
+            return n if r is None or depth > 8 or not _access_path(r, nodes) else unfold(r, depth + 1)
+        c = copy.copy(n)
+        for fld in n.fields:
+            v = getattr(n, fld)
+            if isinstance(v, nodes.Node):
+                setattr(c, fld, unfold(v, depth))
+            elif isinstance(v, list):
+                setattr(c, fld, [unfold(x, depth) if isinstance(x, nodes.Node) else x for x in v])
+        return c
+
+    return expr_text(unfold(e))
+
+
+def _is_subject(e: Any, subj: set[str], nodes: Any, alias: dict[int, Any] | None = None) -> bool:
+    """e denotes an object handed to render() itself: a render argument, a template-local name for one (`set` / `with`), or a macro
     parameter that receives one at every call"""
+    e = _resolve_alias(e, alias or {})
     return isinstance(e, nodes.Name) and (e.name in subj or (e.name[:1] == "(" and e.name[-1:] == ")" and e.name[1:-1] in subj))
 
 
-def _subject_names(ti: Any, render_args: set[str], is_imported: bool, nodes: Any) -> dict[str, tuple[list[Any], set[str]]]:
+def _subject_names(ti: Any, render_args: set[str], is_imported: bool, nodes: Any,
+                   alias: dict[int, Any] | None = None) -> dict[str, tuple[list[Any], set[str]]]:
     """scope name -> (body, names that denote a render argument there).  The top level sees the render arguments; a macro sees those its
     parameters do not hide, plus every parameter to which all calls (the macro is private to a template nobody imports: calls by name
     in the template itself) pass such a name."""
@@ -512,7 +1018,7 @@ def _subject_names(ti: Any, render_args: set[str], is_imported: bool, nodes: Any
                 ok = True
                 for scope, c in calls[m.name]:
                     arg = c.args[i] if i < len(c.args) else next((k.value for k in c.kwargs if k.key == a.name), None)
-                    if arg is None or c.dyn_args is not None or c.dyn_kwargs is not None or not _is_subject(arg, out[scope][1], nodes):
+                    if arg is None or c.dyn_args is not None or c.dyn_kwargs is not None or not _is_subject(arg, out[scope][1], nodes, alias):
                         ok = False
                 if ok:
                     out[m.name][1].add(a.name)
@@ -567,7 +1073,7 @@ def _template_module_state(rep: Report, ctx: Any) -> None:
     templates = ctx.jinja.templates
     # templates whose module object is cached: targets of `import` / `from .. import` without `with context`
     cached = _imported_templates(templates, nodes, cached_only=True)
-    rep.floor("templates_imported_without_context", len(cached), 3)
+    rep.floor("templates_imported_without_context", len(cached), 9)
     for tname in sorted(cached):
         ti = templates[tname]
         # objects with identity created by the module body (the body runs once, when the module is first imported)
